@@ -382,7 +382,7 @@ pub(crate) fn gen_expression(rng: &mut StdRng, loose: bool) -> Expression {
 }
 
 pub(crate) fn gen_pred(rng: &mut StdRng, vars: bool) -> Predicate {
-    Predicate { name: pick(rng, &["f", "resource", "a_b", "x1", "ns:pred", "Trusting"]).to_string(), terms: (0..rng.gen_range(1..4)).map(|_| gen_term(rng, 2, vars)).collect() }
+    Predicate { name: pick(rng, &["f", "resource", "a_b", "x1", "ns:pred", "Trusting", "trusting_level", "trusting", "check", "or_else", "allow"]).to_string(), terms: (0..rng.gen_range(1..4)).map(|_| gen_term(rng, 2, vars)).collect() }
 }
 
 fn gen_scopes(rng: &mut StdRng, keys: &Keys) -> Vec<Scope> {
